@@ -3,11 +3,17 @@ use serde_json::Value;
 use crate::common::{machinery_error, Tier};
 
 pub mod c06;
+pub mod grammar;
 pub mod loopprops;
+pub mod proto;
 
 pub fn run(id: &str, tier: Tier) -> i32 {
     match id {
         "C01" => loopprops::run_c01(tier),
+        "C02" => proto::run_c02(tier),
+        "C03" => proto::run_c03(tier),
+        "C09" => proto::run_c09(tier),
+        "C10" => proto::run_c10(tier),
         "C04" => loopprops::run_c04(tier),
         "C05" => loopprops::run_c05(tier),
         "C06" => c06::run(tier),
@@ -20,6 +26,7 @@ pub fn replay(id: &str, case: &Value) -> i32 {
     match id {
         "C01" | "C04" | "C05" | "C08" => loopprops::replay(id, case),
         "C06" => c06::replay(case),
+        "C02" | "C03" | "C09" | "C10" => proto::replay(id, case),
         _ => machinery_error(&format!("unknown property id {id}")),
     }
 }
